@@ -166,6 +166,24 @@ func (tt *TrueTypeFont) parseEncoding(fontDict core.Dict, resolver func(core.Ind
 		} else {
 			tt.Encoding = "WinAnsiEncoding"
 		}
+
+		// Apply differences
+		if diffsObj := dict.Get("Differences"); diffsObj != nil {
+			if ref, ok := diffsObj.(core.IndirectRef); ok {
+				obj, err := resolver(ref)
+				if err != nil {
+					return err
+				}
+				diffsObj = obj
+			}
+			if diffs, ok := diffsObj.(core.Array); ok {
+				differences, err := differencesFromArray(diffs)
+				if err != nil {
+					return err
+				}
+				tt.differences = differences
+			}
+		}
 		return nil
 	}
 
